@@ -2,6 +2,7 @@ SPECIFICATION GSpecR
 CONSTANTS
   STALL = {}
   LateResponseOK = TRUE
+  NoTimeout = FALSE
   STALLOFF = {9000, 9001, 9002, 9003, 9004, 9005, 1, 120, 170, 300}
   REQ = {1, 2, 3, 4}
   T = 100
